@@ -577,7 +577,7 @@ func (f *OrefaFile) Truncate(size int64) error {
 		return &fs.PathError{Op: op, Path: f.name, Err: err}
 	}
 
-	if size < 0 {
+	if size < 0 || size > maxFileSize {
 		return &fs.PathError{Op: op, Path: f.name, Err: f.vfs.err.InvalidArgument}
 	}
 
@@ -637,10 +637,20 @@ func (f *OrefaFile) Write(b []byte) (n int, err error) {
 
 	nd.mu.Lock()
 
+	at := f.at
 	if f.openMode&avfs.OpenAppend != 0 {
 		// O_APPEND : every write lands at the current end of the file.
-		f.at = int64(len(nd.data))
+		at = int64(len(nd.data))
 	}
+
+	if at > maxFileSize-int64(len(b)) {
+		// the file would grow beyond the maximum size.
+		nd.mu.Unlock()
+
+		return 0, &fs.PathError{Op: op, Path: f.name, Err: f.vfs.err.InvalidArgument}
+	}
+
+	f.at = at
 
 	if diff := f.at - int64(len(nd.data)); diff > 0 {
 		// the offset is beyond the end of the file : fill the gap with zeros.
@@ -708,6 +718,11 @@ func (f *OrefaFile) WriteAt(b []byte, off int64) (n int, err error) {
 
 	if len(b) == 0 {
 		return 0, nil
+	}
+
+	if off > maxFileSize-int64(len(b)) {
+		// the file would grow beyond the maximum size.
+		return 0, &fs.PathError{Op: op, Path: f.name, Err: f.vfs.err.InvalidArgument}
 	}
 
 	nd.mu.Lock()
